@@ -1,12 +1,497 @@
-//! Concurrency scenarios executed inside the executor under a generated
-//! schedule (filled in by the C02/C03/C11 work).
+//! Schedule control inside the executor (DESIGN 6.3).
+//!
+//! The `verif` feature of xs calls `sync_point(label, id)` at named places in
+//! the append and read paths. The director installs a callback that, per
+//! (actor, label, occurrence), sleeps for a generated delay or holds the caller
+//! until some other event has happened (bounded). Delays dominate the natural
+//! microsecond-scale timing, so a generated schedule realises its intended
+//! interleaving with high probability; nothing here decides anything — the
+//! driver evaluates the oracles on the returned event log.
 
+use std::cell::RefCell;
+use std::collections::HashMap;
+use std::sync::atomic::{AtomicBool, Ordering};
+use std::sync::{Arc, Condvar, Mutex};
+use std::time::{Duration, Instant};
+
+use scru128::Scru128Id;
 use serde::{Deserialize, Serialize};
 use serde_json::json;
 
-#[derive(Debug, Serialize, Deserialize, Clone, Default)]
-pub struct ScenarioSpec {}
+use crate::wire::*;
 
-pub fn run_scenario(_ex: &mut crate::exec::Executor, _spec: ScenarioSpec) -> serde_json::Value {
-    json!({"err": "not implemented"})
+thread_local! {
+    static ACTOR: RefCell<Option<String>> = const { RefCell::new(None) };
+}
+
+pub fn set_actor(name: &str) {
+    ACTOR.with(|a| *a.borrow_mut() = Some(name.to_string()));
+}
+
+fn current_actor(label: &str) -> String {
+    if let Some(a) = ACTOR.with(|a| a.borrow().clone()) {
+        return a;
+    }
+    if label.starts_with("read.hist.") {
+        "hist".into()
+    } else if label.starts_with("read.live.") {
+        "live".into()
+    } else if label.starts_with("handler.") {
+        "handler".into()
+    } else {
+        "other".into()
+    }
+}
+
+#[derive(Debug, Serialize, Deserialize, Clone, PartialEq)]
+pub struct Hold {
+    /// wait until `count` events with this label (and actor, if given) have been seen
+    pub label: String,
+    pub actor: Option<String>,
+    pub count: u32,
+    pub max_ms: u32,
+}
+
+#[derive(Debug, Serialize, Deserialize, Clone, PartialEq)]
+pub struct Rule {
+    pub actor: Option<String>,
+    pub label: String,
+    /// 0-based occurrence of (actor, label); None = every occurrence
+    pub occurrence: Option<u32>,
+    pub delay_us: u64,
+    pub hold: Option<Hold>,
+}
+
+#[derive(Debug, Serialize, Deserialize, Clone)]
+pub struct Event {
+    pub t_us: u64,
+    pub actor: String,
+    pub label: String,
+    pub id: Option<String>,
+}
+
+#[derive(Default)]
+struct State {
+    rules: Vec<Rule>,
+    counts: HashMap<(String, String), u32>,
+    label_counts: HashMap<(Option<String>, String), u32>,
+    log: Vec<Event>,
+    logging: bool,
+    hold_timeouts: u32,
+}
+
+struct Director {
+    state: Mutex<State>,
+    cv: Condvar,
+    t0: Mutex<Option<Instant>>,
+}
+
+static DIRECTOR: std::sync::OnceLock<Arc<Director>> = std::sync::OnceLock::new();
+
+fn director() -> Arc<Director> {
+    DIRECTOR
+        .get_or_init(|| {
+            let d = Arc::new(Director {
+                state: Mutex::new(State::default()),
+                cv: Condvar::new(),
+                t0: Mutex::new(None),
+            });
+            let d2 = d.clone();
+            xs::verif::set_sync_hook(Some(Arc::new(move |label: &'static str, id: Option<Scru128Id>| {
+                d2.on_sync(label, id);
+            })));
+            d
+        })
+        .clone()
+}
+
+impl Director {
+    fn now_us(&self) -> u64 {
+        self.t0
+            .lock()
+            .unwrap()
+            .map(|t| t.elapsed().as_micros() as u64)
+            .unwrap_or(0)
+    }
+
+    fn on_sync(&self, label: &'static str, id: Option<Scru128Id>) {
+        let actor = current_actor(label);
+        let (delay, hold) = {
+            let mut st = self.state.lock().unwrap();
+            if st.rules.is_empty() && !st.logging {
+                return;
+            }
+            let occ = {
+                let c = st.counts.entry((actor.clone(), label.to_string())).or_insert(0);
+                let o = *c;
+                *c += 1;
+                o
+            };
+            *st.label_counts.entry((None, label.to_string())).or_insert(0) += 1;
+            *st.label_counts
+                .entry((Some(actor.clone()), label.to_string()))
+                .or_insert(0) += 1;
+            if st.logging && st.log.len() < 200_000 {
+                let t_us = self.now_us();
+                st.log.push(Event {
+                    t_us,
+                    actor: actor.clone(),
+                    label: label.to_string(),
+                    id: id.map(|i| i.to_string()),
+                });
+            }
+            let rule = st.rules.iter().find(|r| {
+                r.label == label
+                    && r.actor.as_ref().map(|a| *a == actor).unwrap_or(true)
+                    && r.occurrence.map(|o| o == occ).unwrap_or(true)
+            });
+            match rule {
+                Some(r) => (r.delay_us, r.hold.clone()),
+                None => (0, None),
+            }
+        };
+        self.cv.notify_all();
+        if let Some(h) = hold {
+            let deadline = Instant::now() + Duration::from_millis(h.max_ms as u64);
+            let mut st = self.state.lock().unwrap();
+            loop {
+                let seen = st
+                    .label_counts
+                    .get(&(h.actor.clone(), h.label.clone()))
+                    .cloned()
+                    .unwrap_or(0);
+                if seen >= h.count {
+                    break;
+                }
+                let now = Instant::now();
+                if now >= deadline {
+                    st.hold_timeouts += 1;
+                    break;
+                }
+                let (g, _) = self.cv.wait_timeout(st, deadline - now).unwrap();
+                st = g;
+            }
+        }
+        if delay > 0 {
+            std::thread::sleep(Duration::from_micros(delay));
+        }
+    }
+}
+
+/// Simple persistent rules (label -> delay for every occurrence, any actor).
+pub fn set_delays(delays: Vec<(String, u64)>) {
+    let d = director();
+    let mut st = d.state.lock().unwrap();
+    st.rules = delays
+        .into_iter()
+        .map(|(label, delay_us)| Rule {
+            actor: None,
+            label,
+            occurrence: None,
+            delay_us,
+            hold: None,
+        })
+        .collect();
+}
+
+// ---------------------------------------------------------------------------
+// scenarios
+// ---------------------------------------------------------------------------
+
+#[derive(Debug, Serialize, Deserialize, Clone, PartialEq)]
+pub struct WriterSpec {
+    pub start_delay_us: u64,
+    /// (frame, pause before appending it in us)
+    pub frames: Vec<(FrameSpec, u64)>,
+}
+
+#[derive(Debug, Serialize, Deserialize, Clone, PartialEq, Default)]
+pub struct FollowSpec {
+    pub opts: ROpts,
+    pub start_delay_us: u64,
+    /// pause per received frame (us)
+    pub pace_us: u64,
+    /// after receiving this many frames stop receiving for `stall_ms`
+    pub stall_after: Option<u32>,
+    pub stall_ms: u32,
+    /// read the content of each hashed frame on arrival
+    pub cas_probe: bool,
+}
+
+#[derive(Debug, Serialize, Deserialize, Clone, PartialEq)]
+pub struct PollSpec {
+    #[serde(with = "opt_id_ser")]
+    pub ctx: Option<u128>,
+    pub interval_us: u64,
+    pub limit: Option<usize>,
+}
+
+#[derive(Debug, Serialize, Deserialize, Clone, PartialEq, Default)]
+pub struct ScenarioSpec {
+    pub rules: Vec<Rule>,
+    pub writers: Vec<WriterSpec>,
+    pub followers: Vec<FollowSpec>,
+    pub pollers: Vec<PollSpec>,
+    /// after the writers are done: wait until every follower has at least this
+    /// many frames (or is closed), at most `max_wait_ms`
+    pub expect_min: Vec<u32>,
+    pub settle_ms: u32,
+    pub max_wait_ms: u32,
+    pub log_events: bool,
+}
+
+#[derive(Debug, Serialize, Deserialize, Clone)]
+pub struct WriterResult {
+    /// per frame: (t_start_us, t_end_us, Ok(frame) | Err(msg))
+    pub appends: Vec<(u64, u64, Result<WFrame, String>)>,
+}
+
+#[derive(Debug, Serialize, Deserialize, Clone)]
+pub struct FollowResult {
+    pub subscribed_at_us: u64,
+    pub items: Vec<crate::exec::FollowItem>,
+    pub closed: bool,
+    pub closed_at_us: Option<u64>,
+}
+
+#[derive(Debug, Serialize, Deserialize, Clone)]
+pub struct PollResult {
+    /// each poll: (t_us, last_id used, frames returned)
+    pub polls: Vec<(u64, Option<String>, Vec<WFrame>)>,
+}
+
+#[derive(Debug, Serialize, Deserialize, Clone)]
+pub struct ScenarioResult {
+    pub writers: Vec<WriterResult>,
+    pub followers: Vec<FollowResult>,
+    pub pollers: Vec<PollResult>,
+    pub final_all: Vec<WFrame>,
+    pub events: Vec<Event>,
+    pub hold_timeouts: u32,
+    pub writers_done_at_us: u64,
+    pub ended_at_us: u64,
+}
+
+struct FollowShared {
+    items: Mutex<Vec<crate::exec::FollowItem>>,
+    closed: AtomicBool,
+    closed_at: Mutex<Option<u64>>,
+    subscribed_at: Mutex<u64>,
+}
+
+pub fn run_scenario(ex: &mut crate::exec::Executor, spec: ScenarioSpec) -> serde_json::Value {
+    let d = director();
+    let t0 = Instant::now();
+    *d.t0.lock().unwrap() = Some(t0);
+    {
+        let mut st = d.state.lock().unwrap();
+        st.rules = spec.rules.clone();
+        st.counts.clear();
+        st.label_counts.clear();
+        st.log.clear();
+        st.logging = spec.log_events;
+        st.hold_timeouts = 0;
+    }
+    let now_us = move || t0.elapsed().as_micros() as u64;
+    let stop = Arc::new(AtomicBool::new(false));
+    let writers_done = Arc::new(AtomicBool::new(false));
+    let handle = ex.rt.handle().clone();
+
+    // followers
+    let mut fshared: Vec<Arc<FollowShared>> = Vec::new();
+    let mut fthreads = Vec::new();
+    for (k, fs) in spec.followers.iter().enumerate() {
+        let sh = Arc::new(FollowShared {
+            items: Mutex::new(Vec::new()),
+            closed: AtomicBool::new(false),
+            closed_at: Mutex::new(None),
+            subscribed_at: Mutex::new(0),
+        });
+        fshared.push(sh.clone());
+        let store = ex.store.clone();
+        let fs = fs.clone();
+        let handle = handle.clone();
+        let stop = stop.clone();
+        fthreads.push(std::thread::spawn(move || {
+            set_actor(&format!("f{k}"));
+            if fs.start_delay_us > 0 {
+                std::thread::sleep(Duration::from_micros(fs.start_delay_us));
+            }
+            let opts = fs.opts.to_xs();
+            let mut rx = handle.block_on(async { store.read(opts).await });
+            *sh.subscribed_at.lock().unwrap() = t0.elapsed().as_micros() as u64;
+            let store2 = store.clone();
+            handle.spawn(async move {
+                let mut n = 0u32;
+                loop {
+                    if stop.load(Ordering::SeqCst) {
+                        return;
+                    }
+                    match tokio::time::timeout(Duration::from_millis(20), rx.recv()).await {
+                        Err(_) => continue,
+                        Ok(None) => {
+                            *sh.closed_at.lock().unwrap() = Some(t0.elapsed().as_micros() as u64);
+                            sh.closed.store(true, Ordering::SeqCst);
+                            return;
+                        }
+                        Ok(Some(f)) => {
+                            let cas_ok = if fs.cas_probe {
+                                match &f.hash {
+                                    Some(h) => Some(store2.cas_read(h).await.is_ok()),
+                                    None => None,
+                                }
+                            } else {
+                                None
+                            };
+                            sh.items.lock().unwrap().push(crate::exec::FollowItem {
+                                frame: WFrame::from_xs(&f),
+                                t_us: t0.elapsed().as_micros() as u64,
+                                cas_ok,
+                            });
+                            n += 1;
+                            if fs.stall_after == Some(n) && fs.stall_ms > 0 {
+                                tokio::time::sleep(Duration::from_millis(fs.stall_ms as u64)).await;
+                            }
+                            if fs.pace_us > 0 {
+                                tokio::time::sleep(Duration::from_micros(fs.pace_us)).await;
+                            }
+                        }
+                    }
+                }
+            });
+        }));
+    }
+
+    // pollers
+    let mut pthreads = Vec::new();
+    for (k, ps) in spec.pollers.iter().enumerate() {
+        let store = ex.store.clone();
+        let ps = ps.clone();
+        let writers_done = writers_done.clone();
+        pthreads.push(std::thread::spawn(move || {
+            set_actor(&format!("p{k}"));
+            let mut polls = Vec::new();
+            let mut last: Option<Scru128Id> = None;
+            let mut after_done = 0;
+            loop {
+                let t = t0.elapsed().as_micros() as u64;
+                let frames: Vec<xs::store::Frame> = store
+                    .read_sync(last.as_ref(), ps.limit, ps.ctx.map(Scru128Id::from))
+                    .collect();
+                let used = last.map(|l| l.to_string());
+                if let Some(f) = frames.last() {
+                    last = Some(f.id);
+                }
+                let empty = frames.is_empty();
+                polls.push((t, used, frames.iter().map(WFrame::from_xs).collect::<Vec<_>>()));
+                if writers_done.load(Ordering::SeqCst) {
+                    after_done += 1;
+                    // keep polling until a poll comes back empty after the writers finished
+                    if empty && after_done >= 2 {
+                        break;
+                    }
+                }
+                if polls.len() > 20_000 {
+                    break;
+                }
+                std::thread::sleep(Duration::from_micros(ps.interval_us.max(50)));
+            }
+            PollResult { polls }
+        }));
+    }
+
+    // writers
+    let mut wthreads = Vec::new();
+    for (k, ws) in spec.writers.iter().enumerate() {
+        let store = ex.store.clone();
+        let ws = ws.clone();
+        wthreads.push(std::thread::spawn(move || {
+            set_actor(&format!("w{k}"));
+            if ws.start_delay_us > 0 {
+                std::thread::sleep(Duration::from_micros(ws.start_delay_us));
+            }
+            let mut appends = Vec::new();
+            for (spec, pause) in ws.frames {
+                if pause > 0 {
+                    std::thread::sleep(Duration::from_micros(pause));
+                }
+                let t1 = t0.elapsed().as_micros() as u64;
+                let res = match spec.to_xs() {
+                    Ok(frame) => store
+                        .append(frame)
+                        .map(|f| WFrame::from_xs(&f))
+                        .map_err(|e| e.to_string()),
+                    Err(e) => Err(e),
+                };
+                let t2 = t0.elapsed().as_micros() as u64;
+                appends.push((t1, t2, res));
+            }
+            WriterResult { appends }
+        }));
+    }
+    let writers: Vec<WriterResult> = wthreads
+        .into_iter()
+        .map(|t| t.join().unwrap_or(WriterResult { appends: vec![] }))
+        .collect();
+    let writers_done_at_us = now_us();
+    writers_done.store(true, Ordering::SeqCst);
+    for t in fthreads {
+        let _ = t.join();
+    }
+    let pollers: Vec<PollResult> = pthreads
+        .into_iter()
+        .map(|t| t.join().unwrap_or(PollResult { polls: vec![] }))
+        .collect();
+
+    // wait for the followers
+    let deadline = Instant::now() + Duration::from_millis(spec.max_wait_ms as u64);
+    loop {
+        let mut ok = true;
+        for (k, sh) in fshared.iter().enumerate() {
+            let want = spec.expect_min.get(k).cloned().unwrap_or(0) as usize;
+            let have = sh.items.lock().unwrap().len();
+            if have < want && !sh.closed.load(Ordering::SeqCst) {
+                ok = false;
+            }
+        }
+        if ok || Instant::now() >= deadline {
+            break;
+        }
+        std::thread::sleep(Duration::from_millis(1));
+    }
+    if spec.settle_ms > 0 {
+        std::thread::sleep(Duration::from_millis(spec.settle_ms as u64));
+    }
+    let final_all: Vec<WFrame> = ex
+        .store
+        .read_sync(None, None, None)
+        .map(|f| WFrame::from_xs(&f))
+        .collect();
+    let followers: Vec<FollowResult> = fshared
+        .iter()
+        .map(|sh| FollowResult {
+            subscribed_at_us: *sh.subscribed_at.lock().unwrap(),
+            items: sh.items.lock().unwrap().clone(),
+            closed: sh.closed.load(Ordering::SeqCst),
+            closed_at_us: *sh.closed_at.lock().unwrap(),
+        })
+        .collect();
+    stop.store(true, Ordering::SeqCst);
+    let (events, hold_timeouts) = {
+        let mut st = d.state.lock().unwrap();
+        st.rules.clear();
+        st.logging = false;
+        (std::mem::take(&mut st.log), st.hold_timeouts)
+    };
+    let res = ScenarioResult {
+        writers,
+        followers,
+        pollers,
+        final_all,
+        events,
+        hold_timeouts,
+        writers_done_at_us,
+        ended_at_us: now_us(),
+    };
+    json!({ "ok": serde_json::to_value(res).unwrap() })
 }
